@@ -570,7 +570,10 @@ pub fn finish(
             continue;
         }
         violations += 1;
-        let n = per_driver_reported.entry(f.driver.clone()).or_default();
+        // findings of the libFuzzer stage are reported under their own cap so that they are not
+        // hidden behind the same driver's proptest findings
+        let cap_key = if f.message.contains("libFuzzer") { format!("{}#fuzz", f.driver) } else { f.driver.clone() };
+        let n = per_driver_reported.entry(cap_key).or_default();
         *n += 1;
         if *n > 5 {
             continue; // counted, but do not flood the output
